@@ -1,4 +1,6 @@
 import Hostd.Lemmas.WalletTables
+import Hostd.Lemmas.WalletStats
+import Hostd.Lemmas.WalletAnn
 /-!
 C16 — Wallet and announcement state follow the best chain.
 
@@ -16,6 +18,25 @@ Wallet part (model: `Model/Wallet.lean` part 1, `WalletApplyIndex` / `WalletReve
 * `C16_spend_at_maturity_violates`  the tree as found breaks the property on a legal chain: consensus
   lets a block at height `h` spend an output with `maturity = h`; on that chain the host either
   panics (negative stat) or books a balance that is not `Σ value | maturity ≤ height`.
+
+Stored metrics (`Lemmas/WalletStats.lean`): the balance metrics live in one row per 5-minute bucket of
+the *block timestamp*.
+* `C16_metrics_buckets_refine`, `C16_stored_metrics_best_chain`  as long as the timestamps never step
+  back into an older bucket in processing order, `Metrics(now)` shows exactly the single-value model,
+  so the wallet theorem carries over to the stored metrics;
+* `C16_metrics_bucket_reorg_violates`  the tree as found breaks the property for a two-block reorg whose
+  blocks lie in different buckets (every reorg of depth ≥ 2 on a network with 10-minute blocks): the
+  revert of the older block rewrites an older row, the newest row keeps the stale value.
+
+Announcement part (`Lemmas/WalletAnn.lean`, model part 2, `ConfigManager.UpdateChainState`):
+* `C16_announcement_best_chain`, `C16_announcement_cleared_iff_disconnected`  with the reverted block's
+  own index compared (the repair) the record is, after any well-formed history of calls, empty or names
+  a block of the best chain containing a host announcement; a call sets it to an announcing block it
+  connects, else clears it exactly when the recorded block is among the disconnected ones, else leaves
+  it alone;
+* `C16_announcement_as_found_not_cleared`, `C16_announcement_as_found_cleared_wrongly`  the tree as
+  found (parent index compared) violates both directions on concrete reorgs ("tip only", "block after
+  the announcement only"); `C16_announcement_as_found_partial` says what still holds for it.
 
 Hypotheses forced by the proofs (`WFdiff`): heights are consecutive; spent outputs are held, created
 ones are new; a created output never has `maturity = h` (consensus: `0` for transaction outputs,
@@ -366,6 +387,113 @@ def exHistMat2 : List Op :=
 theorem C16_spend_at_maturity_drift :
     (run asFound {} exHistMat2).toOption.map (fun s => (s.balance, s.immature, matureSum s.height s.utxos, immatureSum s.height s.utxos))
       = some (99, 300, 399, 0) := by decide
+
+/-! ## Stored metrics: one row per bucket of the block timestamp -/
+
+/-- while the block timestamps never step back into an older bucket (in processing order) the stored
+metrics that `Metrics(now)` reports behave exactly like the single-value model -/
+theorem C16_metrics_buckets_refine (v : Variant) (ops : List TOp) (s : BState) (t0 : Nat)
+    (hb : newestBucket s.bal ≤ t0) (hi : newestBucket s.imm ≤ t0) (hm : TsMono t0 ops) :
+    (runB v s ops).map flat = run v (flat s) (ops.map (·.op)) :=
+  runB_refines v ops s t0 hb hi hm
+
+/-- … hence, for the repaired tree and such timestamps, the stored metrics equal the sums over the
+best chain's outputs -/
+theorem C16_stored_metrics_best_chain (ops : List TOp) (hwf : WFops repaired [] (ops.map (·.op))) (hm : TsMono 0 ops) :
+    ∃ s, runB repaired {} ops = .ok s ∧
+      s.utxos.Perm (specOf (finalStk [] (ops.map (·.op)))).utxos ∧
+      latest s.bal = matureSum (specOf (finalStk [] (ops.map (·.op)))).height (specOf (finalStk [] (ops.map (·.op)))).utxos ∧
+      latest s.imm = immatureSum (specOf (finalStk [] (ops.map (·.op)))).height (specOf (finalStk [] (ops.map (·.op)))).utxos := by
+  obtain ⟨s', hrun, hu, _, hb, hi⟩ := C16_wallet_best_chain (ops.map (·.op)) hwf
+  have href := runB_refines repaired ops {} 0 (Nat.le_refl _) (Nat.le_refl _) hm
+  have hflat : flat ({} : BState) = ({} : WState) := rfl
+  rw [hflat, hrun] at href
+  cases hB : runB repaired {} ops with
+  | error e => rw [hB] at href; simp [Except.map] at href
+  | ok sB =>
+    rw [hB] at href
+    simp only [Except.map, Except.ok.injEq] at href
+    refine ⟨sB, rfl, ?_, ?_, ?_⟩
+    · have : sB.utxos = s'.utxos := by rw [← href]; rfl
+      rw [this]; exact hu
+    · have : latest sB.bal = s'.balance := by rw [← href]; rfl
+      rw [this]; exact hb
+    · have : latest sB.imm = s'.immature := by rw [← href]; rfl
+      rw [this]; exact hi
+
+/-- **the tree as found violates the metrics clause** on a two-block reorg across a bucket boundary -/
+theorem C16_metrics_bucket_reorg_violates :
+    (∃ s, runB asFound {} BucketWitness.hist = .ok s ∧ s.utxos = [] ∧ s.events = [] ∧
+        s.imm = [(2, 100), (1, 0)] ∧ latest s.imm = 100 ∧ latest s.imm ≠ 0) ∧
+    (∃ w, run asFound {} (BucketWitness.hist.map (·.op)) = .ok w ∧ w.utxos = [] ∧ w.immature = 0) ∧
+    ¬ TsMono 0 BucketWitness.hist :=
+  bucket_reorg_violates
+
+/-! ## The announcement record -/
+
+/-- with the reverted block's own index compared: after any well-formed history of
+`UpdateChainState` calls the record is empty or names a block of the best chain that contains a host
+announcement -/
+theorem C16_announcement_best_chain (stk : List ABlock) (hist : List (List ABlock × List ABlock))
+    (hnd : (keysOf stk).Nodup) (hwf : WFhist stk hist) :
+    ((runAnn .own {} stk hist).1 = {} ∨
+      ∃ b ∈ (runAnn .own {} stk hist).2, (runAnn .own {} stk hist).1.idx = some b.key ∧ hasAnn b = true) ∧
+    (keysOf (runAnn .own {} stk hist).2).Nodup :=
+  C16_announcement_own stk hist hnd hwf
+
+/-- … and one call sets the record to an announcing block it connects; otherwise clears it exactly
+when the recorded block is among the disconnected ones; otherwise leaves it unchanged -/
+theorem C16_announcement_cleared_iff_disconnected (r : AnnRec) (reverted applied : List ABlock) :
+    (applied.any hasAnn = true →
+      ∃ b ∈ applied, hasAnn b = true ∧ (annBatch .own r reverted applied).idx = some b.key) ∧
+    (applied.any hasAnn = false → ∀ k, r.idx = some k → k ∈ keysOf reverted →
+      (annBatch .own r reverted applied).idx = none ∧ (annBatch .own r reverted applied).addr = none ∧
+      (annBatch .own r reverted applied).hash = none) ∧
+    (applied.any hasAnn = false → (∀ k, r.idx = some k → k ∉ keysOf reverted) →
+      annBatch .own r reverted applied = r) :=
+  annBatch_own_spec r reverted applied
+
+open AnnWitness in
+/-- **the tree as found**: disconnecting only the announcing tip block leaves the record on a
+disconnected block -/
+theorem C16_announcement_as_found_not_cleared :
+    (keysOf [a, g]).Nodup ∧ WFbatch [a, g] [a] [a', a''] ∧ AnnInv [a, g] rec ∧
+    annBatch .parent rec [a] [a', a''] = rec ∧
+    (annBatch .parent rec [a] [a', a'']).idx = some (1, 2) ∧
+    (1, 2) ∉ keysOf (chainAfter [a, g] [a] [a', a'']) ∧
+    ¬ AnnInv (chainAfter [a, g] [a] [a', a'']) (annBatch .parent rec [a] [a', a'']) ∧
+    annBatch .own rec [a] [a', a''] = {} :=
+  C16_announcement_parent_not_cleared
+
+open AnnWitness in
+/-- **the tree as found**: disconnecting only the block after the announcement clears the record
+although the announcing block stays connected -/
+theorem C16_announcement_as_found_cleared_wrongly :
+    (keysOf [b, a, g]).Nodup ∧ WFbatch [b, a, g] [b] [b', b''] ∧ AnnInv [b, a, g] rec ∧
+    [b', b''].any hasAnn = false ∧ (∀ k, rec.idx = some k → k ∉ keysOf [b]) ∧
+    a ∈ chainAfter [b, a, g] [b] [b', b''] ∧ hasAnn a = true ∧ rec.idx = some a.key ∧
+    annBatch .parent rec [b] [b', b''] = {} ∧
+    annBatch .parent rec [b] [b', b''] ≠ rec ∧
+    annBatch .own rec [b] [b', b''] = rec :=
+  C16_announcement_parent_cleared_wrongly
+
+/-- what still holds for the tree as found: connecting blocks records the announcement correctly
+(histories without disconnections keep the invariant), and a reorg that disconnects both the
+recorded block and its successor clears the record -/
+theorem C16_announcement_as_found_partial :
+    (∀ (r : AnnRec) (applied : List ABlock) (c : RevCmp),
+      annBatch c r [] applied = annBatch .own r [] applied) ∧
+    (∀ (stk : List ABlock) (hist : List (List ABlock × List ABlock)) (r : AnnRec),
+      (keysOf stk).Nodup → WFhist stk hist → (∀ p ∈ hist, p.1 = []) → AnnInv stk r →
+      AnnInv (runAnn .parent r stk hist).2 (runAnn .parent r stk hist).1) ∧
+    (∀ (r : AnnRec) (reverted applied : List ABlock), applied.any hasAnn = true →
+      ∃ b ∈ applied, hasAnn b = true ∧ (annBatch .parent r reverted applied).idx = some b.key) ∧
+    (∀ (r : AnnRec) (reverted applied : List ABlock) (k : Key),
+      r.idx = some k → k ∈ keysOf reverted → (∃ b ∈ reverted, b.parent = k) →
+      applied.any hasAnn = false →
+      (annBatch .parent r reverted applied).idx = none ∧ (annBatch .parent r reverted applied).addr = none ∧
+      (annBatch .parent r reverted applied).hash = none) :=
+  C16_announcement_parent_partial
 
 /-! ### non-vacuity: a concrete reorg history meets the hypotheses -/
 
